@@ -372,7 +372,7 @@ def gen_scenarios(seed, n, steps, profile, role="both", snap=True):
 
 
 def correspond_sendflow(rep, tier, seed, profiles=("flow", "bp", "mixed", "starve", "bp", "reset", "limits", "lastframe", "starvedrop")):
-    per = 50 if tier == "quick" else 1500
+    per = 50 if tier == "quick" else 900
     steps = 100 if tier == "quick" else 140
     all_cases, all_scs, label_hist = [], [], {}
     for pi, prof in enumerate(profiles):
@@ -703,7 +703,7 @@ def capqueue_corpus():
 def correspond_capqueue(rep, tier, seed, profiles=("starve", "starve", "starve", "bufcap", "flow", "bp", "mixed", "reset")):
     """lock-step of coq/Model/CapQueue.v: the model's pending_capacity queue against the observed one at every
     label, and the visiting order it computes against the observed try_assign_capacity calls"""
-    per = 32 if tier == "quick" else 1200
+    per = 32 if tier == "quick" else 700
     steps = 100 if tier == "quick" else 140
     cases, scs = [], []
     tot = {"pops": 0, "pushes": 0, "noop_pushes": 0, "evicted": 0, "requeued": 0, "clears": 0, "maxlen": 0}
